@@ -429,6 +429,78 @@ func runC12(c *h.Ctx) {
 						c.Held("sequence." + modeName(lax))
 					}
 					c.Distinct(ptxt, s[0], s[1], fmt.Sprint(useNum))
+					// an operand that is itself filtered by a comparison: the inner
+					// comparison selects the operand's items, the outer one then
+					// quantifies over exactly those
+					if flat(l) && flat(r) {
+						keep := func(seq []any, fop string, lit float64) []any {
+							var out []any
+							for _, a := range seq {
+								if t, _ := model.Compare(fop, a, lit); t == model.True {
+									out = append(out, a)
+								}
+							}
+							return out
+						}
+						for fi, ff := range []struct {
+							l, r string
+							fl   func([]any) []any
+							fr   func([]any) []any
+						}{
+							{"$x[*]", "$y[*] ? (@ < 3)", nil, func(q []any) []any { return keep(q, "<", 3) }},
+							{"$x[*] ? (@ != 2)", "$y[*]", func(q []any) []any { return keep(q, "!=", 2) }, nil},
+							{"$x[*] ? (@ >= 2)", "$y[*] ? (@ > 1)", func(q []any) []any { return keep(q, ">=", 2) }, func(q []any) []any { return keep(q, ">", 1) }},
+							{"$x[*] ? (@ == $y[*] ? (@ > 0))", "$y[*]", func(q []any) []any {
+								var out []any
+								for _, a := range q {
+									for _, b := range keep(r, ">", 0) {
+										if t, _ := model.Compare("==", a, b); t == model.True {
+											out = append(out, a)
+											break
+										}
+									}
+								}
+								return out
+							}, nil},
+						} {
+							if fi == 3 && !lax {
+								continue // the inner == over a sequence has its own strict rule
+							}
+							fl, fr := l, r
+							if ff.fl != nil {
+								fl = ff.fl(l)
+							}
+							if ff.fr != nil {
+								fr = ff.fr(r)
+							}
+							anyT, anyU := false, false
+							for _, a := range fl {
+								for _, b := range fr {
+									t, _ := model.Compare(op, a, b)
+									anyT = anyT || t == model.True
+									anyU = anyU || t == model.Unknown
+								}
+							}
+							fwant := model.False
+							switch {
+							case lax && anyT, !lax && !anyU && anyT:
+								fwant = model.True
+							case anyU:
+								fwant = model.Unknown
+							}
+							ftxt := mode + ff.l + " " + op + " " + ff.r
+							fo := h.Call("query", cachedPath(ftxt), "doc", h.Opts{Vars: map[string]any{"x": l, "y": r}})
+							c.Eval(1)
+							fgot, fErr, fok := triOf(fo)
+							fcs := cs
+							fcs.Path = ftxt
+							if !fok || fErr || fgot != fwant {
+								c.Violate("sequence."+modeName(lax), h.F("op", op, "form", "filtered-operand"), fmt.Sprintf("%s with x=%s y=%s returned %s; the operands are %s and %s, so expected %v", ftxt, s[0], s[1], fo.Summary(), h.Canon(fl), h.Canon(fr), fwant), fcs)
+							} else {
+								c.Held("sequence." + modeName(lax))
+							}
+						}
+					}
 					if !lax {
 						// the strict rule also holds for a condition evaluated
 						// below .** (which relaxes structural errors only)
@@ -682,6 +754,16 @@ func runC12(c *h.Ctx) {
 			}
 		}
 	}
+}
+
+// flat: no element is an array (nothing a lax step would unwrap).
+func flat(seq []any) bool {
+	for _, a := range seq {
+		if _, ok := a.([]any); ok {
+			return false
+		}
+	}
+	return true
 }
 
 // gQuote quotes a string for a path literal (harness' own quoting).
